@@ -99,6 +99,8 @@ def bfs_unit(u) -> Stats:
                 ok = True
                 for nm, kind in hist:
                     out = savefx.make_output(kind, nm)
+                    pristine_entry = savefx.expected_entry(out)      # BEFORE the save: a saver must not get to edit the expectation
+                    pristine_out = savefx.make_output(kind, nm)
                     try:
                         savefx.call_save_json(path, nm, out)
                     except Exception as e:  # noqa: BLE001
@@ -107,8 +109,8 @@ def bfs_unit(u) -> Stats:
                         break
                     st.transitions += 1
                     if nm not in model:
-                        model[nm] = savefx.expected_entry(out)
-                        outputs[nm] = out
+                        model[nm] = pristine_entry
+                        outputs[nm] = pristine_out
                 if not ok:
                     shutil.rmtree(root, ignore_errors=True)
                     if st.nviol >= 3:
@@ -156,6 +158,8 @@ def full_save_unit(u) -> Stats:
             outputs: dict = {}
             for nm, kind in seq:
                 out = savefx.make_output(kind, nm)
+                pristine_entry = savefx.expected_entry(out)          # BEFORE the save (savers run on the same object)
+                pristine_out = savefx.make_output(kind, nm)
                 before = (root / "data.json").read_bytes() if (root / "data.json").exists() else None
                 try:
                     save(root, nm, out)
@@ -169,8 +173,8 @@ def full_save_unit(u) -> Stats:
                         st.violation(f"[save] saving again under the existing name {nm!r} changed data.json", history=[list(h) for h in seq], full_save=True)
                 else:
                     if after != before:       # the entry was written
-                        model[nm] = savefx.expected_entry(out)
-                        outputs[nm] = out
+                        model[nm] = pristine_entry
+                        outputs[nm] = pristine_out
                     elif raised is None:
                         st.violation(f"[save] save() under the new name {nm!r} returned normally but data.json did not change", history=[list(h) for h in seq], full_save=True)
                 msg = check_file(root / "data.json", model, outputs)
@@ -187,7 +191,8 @@ def full_save_unit(u) -> Stats:
 
 def command_unit(u) -> Stats:
     """solve / greedy / best_states: the entry written equals the matrices the producing function returned."""
-    _, cmd, n, generator, limit, reps, seed = u
+    _, cmd, n, generator, limit, reps, seed = u[:7]
+    all_savers = bool(u[7]) if len(u) > 7 else False
     import incomplete_cooperative.run.best_states as bs
     import incomplete_cooperative.run.greedy as gr
     import incomplete_cooperative.run.save as sv
@@ -200,8 +205,9 @@ def command_unit(u) -> Stats:
 
     def wrap(fn):
         def w(*a, **kw):
+            import copy
             r = fn(*a, **kw)
-            recorded.append(r)
+            recorded.append(copy.deepcopy(r))      # a private copy: later in-place edits of the returned arrays must not reach the record
             return r
         return w
     saved_savers = dict(sv.SAVERS)
@@ -211,8 +217,9 @@ def command_unit(u) -> Stats:
                        seed=seed, parallel_environments=1, game_class="superadditive_cached", gap_function=("exploitability", "l1_norm")[seed % 2],
                        solver="greedy", solve_repetitions=reps, sampling_repetitions=reps, eval_repetitions=2, func=func)
         inst = ModelInstance.from_parsed_arguments(ns)
-        sv.SAVERS.clear()
-        sv.SAVERS["data.json"] = saved_savers["data.json"]
+        if not all_savers:
+            sv.SAVERS.clear()
+            sv.SAVERS["data.json"] = saved_savers["data.json"]
         orig = (so.evaluate, gr.get_greedy_rewards, bs.get_best_exploitability)
         so.evaluate, gr.get_greedy_rewards, bs.get_best_exploitability = wrap(orig[0]), wrap(orig[1]), wrap(orig[2])
         try:
@@ -286,6 +293,10 @@ def run(run: Run) -> None:
             if quick and (n == 4 and cmd != "solve" or (cmd == "best_states" and limit == 3)):
                 continue
             cmds.append(("cmd", cmd, n, generator, limit, 2, seed + len(cmds)))
+    # the whole save() pipeline (plot savers run BEFORE data.json on the same Output object), incl. a step limit above the number of
+    # explorable coalitions (best_states then keeps its -1 placeholder rows)
+    cmds.append(("cmd", "best_states", 3, "noisy_factory", 5, 2, seed + 50, True))
+    cmds.append(("cmd", "solve", 3, "xos", 2, 2, seed + 51, True))
     us += cmds
     run.rule = ("BFS over all sequences of save_json(name, result) with names {a, b, 'a b/ü'} x results {1x1 NaN, 2x3 with negative/1e300/-0.0, 3-D action "
                 "tensor with NaN padding, integer actions} and metadata holding Path / partial / numpy scalars / nested dict, to depth 3 (thorough 4), "
